@@ -232,7 +232,7 @@ use super::*;
 use vstd::prelude::*;
 pub type Result<T> = core::result::Result<T, Error>;
 
-//@extract slice_reader::XmlSource_for_slice | src/reader/slice_reader.rs :: impl<'a> XmlSource<'a, ()> for &'a [u8] | serves=C01,C02,C03,C08,C12,C16,C17 n11=1
+//@extract slice_reader::XmlSource_for_slice | src/reader/slice_reader.rs :: impl<'a> XmlSource<'a, ()> for &'a [u8] | serves=C01,C02,C03,C08,C12,C16,C17,C18 n11=1
 //@rewrite self.iter().position(|b| ==> shim::position_ref(*self, |b: &u8|
 ////////////////////////////////////////////////////////////////////////////////////////////////////
 
